@@ -468,6 +468,54 @@ func runC02(c *ctx) {
 		wire := ref.PatchLen(append(append([]byte{}, ref.EncodeMessage(m)[:14]...), nonCanonical(r, it)...))
 		c02Decoded(c, c02Case{Op: "decoded", Msg: m, Wire: hex.EncodeToString(wire)})
 	})
+	// (e3) items derived from one template by different fills: each encodes its own values, also after the template has been
+	// filled again with other values (the template's storage is not the derived item's)
+	c.parallel(c.pick(8000, 80000), func(i int, r *rng.R) {
+		g := gen.New(r, gen.Profile{MaxDepth: r.Intn(3), Vars: true, PlainNames: true, Budget: 120, MaxKids: 3, MaxElems: 6})
+		tpl := g.Tree()
+		if len(tpl.Vars()) == 0 {
+			return
+		}
+		var node ast.ItemNode
+		if o := real.Try(func() { node = real.Build(tpl) }); o.Panicked {
+			return
+		}
+		type derived struct {
+			item ast.ItemNode
+			want []byte
+			got  []byte
+		}
+		var ds []derived
+		for k := 0; k < 3; k++ {
+			sub := fullAssignment(g, tpl)
+			model, ok := ref.Fill(tpl, sub)
+			if !ok || len(model.Vars()) != 0 {
+				return
+			}
+			raw := map[string]interface{}{}
+			for name, v := range sub {
+				raw[name] = rawOf(v)
+			}
+			var it ast.ItemNode
+			if o := real.Try(func() { it = node.FillVariables(raw) }); o.Panicked {
+				return
+			}
+			d := derived{item: it, want: ref.Encode(model)}
+			if k == 1 {
+				d.got = it.ToBytes() // one of the three is encoded at once, the others only after all fills
+			}
+			ds = append(ds, d)
+		}
+		c.Class("item/derived-by-several-fills")
+		c.Note(rng.Hash64(ds[0].want), true)
+		for k, d := range ds {
+			now := d.item.ToBytes()
+			if !bytes.Equal(now, d.want) || (d.got != nil && !bytes.Equal(d.got, d.want)) {
+				c.Violation("C02/derived/bytes-differ", fmt.Sprintf("fill %d of 3 from one template %s: ToBytes()=%x (at once: %x), the encoding of its own values is %x", k, clipS(ref.Print(tpl)), clipB(now), clipB(d.got), clipB(d.want)), c02Case{Op: "item", Item: tpl})
+				return
+			}
+		}
+	})
 	// messages whose length field needs its fourth byte (text of 2^24 bytes or more): one giant item, and many large ones
 	{
 		big := &ref.Item{Kind: ref.A, Str: bytes.Repeat([]byte("q"), ref.MaxBytes-5)}
@@ -502,7 +550,7 @@ func runC02(c *ctx) {
 			c.Violation("C02/msg/partial-bytes-for-a-tree-with-an-empty-item", fmt.Sprintf("item bytes %x, message bytes %x", clipB(itemBytes), clipB(msgBytes)), c02Case{Op: "empty-item"})
 		}
 	}
-	c.Required = []string{"empty-item-inside-a-list", "msg/length>=2^24", "msg/session-unset-again", "msg/complete", "msg/+vars", "msg/+optW", "msg/+nosession", "f4/finite-patterns", "f4round/in-range", "f4round/overflow", "lenbytes=3/A", "lenbytes=2/L", "item/decoded-from-another-spelling"}
+	c.Required = []string{"empty-item-inside-a-list", "msg/length>=2^24", "msg/session-unset-again", "msg/complete", "msg/+vars", "msg/+optW", "msg/+nosession", "f4/finite-patterns", "f4round/in-range", "f4round/overflow", "lenbytes=3/A", "lenbytes=2/L", "item/decoded-from-another-spelling", "item/derived-by-several-fills"}
 }
 
 func replayC02(c *ctx, raw json.RawMessage) {
